@@ -8,6 +8,7 @@ import (
 	"encoding/json"
 	"fmt"
 	"os"
+	"time"
 
 	"verifharness/lib"
 )
@@ -28,6 +29,11 @@ func main() {
 	if !ok {
 		fmt.Fprintln(os.Stderr, "HARNESS-ERROR unknown property", os.Args[1])
 		os.Exit(2)
+	}
+	if os.Args[1] != "C16" {
+		// only C16 studies the Lua runtime's real-time deadline; everywhere else a timer must not fire because the
+		// process was starved of CPU in the middle of a script run
+		time.VerifTimerStretch = 100000
 	}
 	r := lib.NewReport(os.Args[1])
 	if len(os.Args) >= 4 && os.Args[2] == "--replay" {
